@@ -164,18 +164,30 @@ def doubleQ (q : Nat) : Str → Str
   | [] => []
   | c :: cs => if c.toNat == q then c :: c :: doubleQ q cs else c :: doubleQ q cs
 
+/-- `needQuoteSheetName`: a name made of letters and numbers that still needs quotes — it starts
+with a number (byte-wise: an ASCII digit), reads as a cell reference, or is a boolean -/
+def needQuote (name : Str) : Bool :=
+  match name with
+  | [] => false
+  | c :: _ =>
+    isDigit c ||
+    (match cellNameToCoordinates name with | .ok _ => true | .error _ => false) ||
+    name.map toUpper == ['T', 'R', 'U', 'E'] || name.map toUpper == ['F', 'A', 'L', 'S', 'E']
+
 /-- `escapeSheetName` -/
 def escapeSheetName (name : Str) : Str :=
-  if name.all isWordByte then name
+  if name.all isWordByte && !needQuote name then name
   else [Char.ofNat Facts.C07.sheetQuote] ++ doubleQ Facts.C07.sheetQuote name ++ [Char.ofNat Facts.C07.sheetQuote]
 
-/-- `adjustFormulaOperand` -/
+/-- `adjustFormulaOperand`: the sheet name is what precedes the LAST separator
+(`strings.LastIndex(token.TValue, "!")`) -/
 def adjustOperand (sheet sheetN : Str) (kr : Bool) (e : Edit) (tv : Str) : Except Err Str :=
-  let parts := splitOn Facts.C07.sheetSep tv
-  let have2 := parts.length == Facts.C07.sheetParts
-  let sheetName : Str := if have2 then parts.headD [] else []
-  let cell : Str := if have2 then (parts.drop 1).headD [] else tv
-  let op0 : Str := if have2 then escapeSheetName sheetName ++ [Char.ofNat Facts.C07.sheetSep] else []
+  let idx := lastIdx (fun c => c.toNat == Facts.C07.sheetSep) tv
+  let sheetName : Str := match idx with | some i => tv.take i | none => []
+  let cell : Str := match idx with | some i => tv.drop (i + 1) | none => tv
+  let op0 : Str := match idx with
+    | some _ => escapeSheetName sheetName ++ [Char.ofNat Facts.C07.sheetSep]
+    | none => []
   let sheetName := if sheetName.isEmpty then sheetN else sheetName
   if sheet ≠ sheetName then .ok (op0 ++ cell) else adjustCell kr e op0 cell
 
